@@ -477,7 +477,7 @@ func c03Exhaust(j *c03Judge, backend string) {
 }
 
 func TestC03(t *testing.T) {
-	evid.Extra("rule", "C03: rapid-generated histories (1..6 operations quick, 1..9 thorough) of install/upgrade/rollback/uninstall x atomic x cleanup-on-fail x no-hooks over generated charts (1-4 resources of 5 kinds, 0-3 hooks) on the three backends; every install/upgrade/rollback draws one cluster-side fault (k-th cluster request rejected with 500/403/409, or k-th waiter call failing: readiness, hook completion, deletion) at a position drawn from the calls the operation really makes (half of the faults balanced over the phases pre-hook / each request verb / readiness wait / post-hook; a failed install is retried with --replace over its own leftovers in half of the cases; three draws in four avoid the triggers of two recorded findings, counted in the notes); the thorough tier also enumerates every request index and waiter index for the last operation of a third of the histories. When the fault fired: the operation must return an error, the revision it created must be failed, the previously deployed revision must stay deployed (install/upgrade), cleanup-on-fail must remove newly created resources, atomic upgrade must end in a new deployed revision equal to the most recent ever-deployed one with a matching cluster, atomic install must leave neither history nor resources. Non-trivial = a fault fired after the operation had already issued a cluster write or a storage write; distinct by (backend, operations with flags and fault positions).")
+	evid.Extra("rule", "C03: rapid-generated histories (1..6 operations quick, 1..9 thorough) of install/upgrade/rollback/uninstall x atomic x cleanup-on-fail x no-hooks over generated charts (1-4 resources of 5 kinds, 0-3 hooks) on the three backends (a rollback that its pre-rollback hook stops must leave the deployed revision deployed); every install/upgrade/rollback draws one cluster-side fault (k-th cluster request rejected with 500/403/409, or k-th waiter call failing: readiness, hook completion, deletion) at a position drawn from the calls the operation really makes (half of the faults balanced over the phases pre-hook / each request verb / readiness wait / post-hook; a failed install is retried with --replace over its own leftovers in half of the cases; three draws in four avoid the triggers of two recorded findings, counted in the notes); the thorough tier also enumerates every request index and waiter index for the last operation of a third of the histories. When the fault fired: the operation must return an error, the revision it created must be failed, the previously deployed revision must stay deployed (install/upgrade), cleanup-on-fail must remove newly created resources, atomic upgrade must end in a new deployed revision equal to the most recent ever-deployed one with a matching cluster, atomic install must leave neither history nor resources. Non-trivial = a fault fired after the operation had already issued a cluster write or a storage write; distinct by (backend, operations with flags and fault positions).")
 	evid.Extra("assumptions", append([]string{"charts carry no resource-policy annotations and no objects pre-exist (C07/C02 cover those)", "exactly one cluster-side fault per operation; storage faults belong to C01"}, c01Assumptions[:2]...))
 	rapid.Check(t, c03Prop)
 }
